@@ -11,7 +11,7 @@ def project(raw):
             if x[0] == 0:
                 return [st(y) for y in x[1]]
             r = x[1]
-            return [r[2], r[3], r[4], r[5]]
+            return [r[2], r[3], r[4], bool(r[5])]
         return [0, st(t[1][0])]
     c = raw[5]
     return [proj_types(raw, pick), raw[3], raw[4], [c[0], len(c[1][0]) if c[0] == 0 and c[1] else -1]]
